@@ -11,6 +11,9 @@
 package session
 
 import (
+	"io"
+
+	flog "github.com/gofiber/fiber/v3/log"
 	"verifharness/internal/ev"
 	"verifharness/internal/reg"
 	"verifharness/internal/vt"
@@ -24,6 +27,7 @@ func init() {
 func run(e *ev.Env) {
 	vt.Require()
 	vt.Start()
+	flog.SetOutput(io.Discard) // fiber logs storage errors it swallows; the result file is the output
 	corpus(e)
 	e.Cases("hist", e.N(3000, 300000), func(c *ev.Case) { runGenerated(e, c) })
 	e.Cases("source", e.N(200, 6000), func(c *ev.Case) { runSource(e, c) })
